@@ -548,7 +548,7 @@ Proof.
   exists ex_env, "robustirc.net", stale_final. split; [exact stale_reachable|]. split.
   - vm_compute. discriminate.
   - intros H. specialize (H 2%N). assert (Hin : In 2%N (sv_serverSessions stale_final)) by (vm_compute; auto).
-    specialize (H Hin). vm_compute in H. discriminate.
+    specialize (H Hin). clear Hin. vm_compute in H. discriminate H.
 Qed.
 
 Example stale_final_shape :
@@ -627,5 +627,5 @@ Example reuse_visible :
   ~ history_ids_ok 0 reuse_history.
 Proof.
   split; [eexists; vm_compute; reflexivity|]. split; [vm_compute; reflexivity|]. split; [vm_compute; reflexivity|].
-  cbn. intros H. decompose [and] H. lia.
+  cbn. unfold entry_ids_ok. cbn. intros H. decompose [and] H. lia.
 Qed.
